@@ -653,6 +653,18 @@ func (c *Ctx) noStateAfterWrite(rule string) {
 			}
 			n++
 			late := ""
+			if _, isDefer := op.Call.(*ssa.Defer); isDefer {
+				// a deferred change is made when the function returns: after every write the function does
+				for _, w := range writes {
+					if Reaches(op.Call.(ssa.Instruction), w) {
+						late = c.P.InstrPos(w)
+					}
+				}
+				if late != "" {
+					r.Bad(rule, FuncName(fn), op.String()+" deferred past the response", posf(c, op.Call), "this change is deferred to the function's return, after the response was produced at "+late+": the client state was flushed with the first header byte, so the change never reaches the store")
+				}
+				continue
+			}
 			for _, w := range writes {
 				if w != op.Call.(ssa.Instruction) && Reaches(w, op.Call.(ssa.Instruction)) && !Reaches(op.Call.(ssa.Instruction), w) {
 					late = c.P.InstrPos(w)
@@ -780,7 +792,7 @@ func (c *Ctx) providerUIDVerbatim(rule string) {
 		}
 	}
 	if n == 0 {
-		r.Info(rule, "ab/oauth2", "provider detail functions", "-", "no provider detail function stores a uid")
+		r.Unknown(rule, "ab/oauth2", "provider detail functions", "-", "no provider detail function stores the provider's id under the uid key in a way the rule can read (a constant key and a field of the decoded answer): whether the id is taken as the provider sent it cannot be decided")
 	}
 }
 
@@ -902,6 +914,145 @@ func (c *Ctx) lockedResponseFixed(rule string) {
 	}
 	if n == 0 {
 		r.Info(rule, name, "RedirectOptions", "-", "the lock routine builds no redirect of its own")
+	}
+}
+
+// successResets: a login that the lock module gates (it fires
+// Before(EventAuth)) also tells it that it succeeded: after the session is
+// written, every completing path fires an After event on which lock registers
+// the handler that resets the failure count. A login that never reports its
+// success leaves the earlier failures standing, and one more mistake locks
+// the account.
+func (c *Ctx) successResets(rule string) {
+	r := c.R
+	resetOn := map[int64]bool{}
+	for _, w := range c.wiring {
+		if w.Before || !w.Const || w.Conditional || pkgOf(w.In) != "ab/lock" || w.Handler == nil {
+			continue
+		}
+		for _, call := range c.userCalls(w.Handler, "PutAttemptCount") {
+			if n, isC := ConstInt(Arg(call, 0)); isC && n == 0 {
+				resetOn[w.Event] = true
+			}
+		}
+	}
+	if len(resetOn) == 0 {
+		r.Info(rule, "ab/lock", "After(*) → reset", "-", "lock registers no resetting After handler")
+		return
+	}
+	evAuth := c.Event("EventAuth")
+	for _, s := range c.Issuances() {
+		if !s.Op.Const {
+			continue
+		}
+		gated := false
+		for _, f := range Fires(s.Fn) {
+			if f.Before && f.Const && f.Event == evAuth && (InstrDominates(f.Call.(ssa.Instruction), s.Op.Call.(ssa.Instruction)) || Reaches(f.Call.(ssa.Instruction), s.Op.Call.(ssa.Instruction))) {
+				gated = true
+			}
+		}
+		if !gated {
+			continue
+		}
+		isReset := func(i ssa.Instruction) bool {
+			for _, f := range Fires(s.Fn) {
+				if !f.Before && f.Const && resetOn[f.Event] && f.Call.(ssa.Instruction) == i {
+					return true
+				}
+			}
+			return false
+		}
+		q := PathQuery{From: s.Op.Call.(ssa.Instruction), Cut: isReset, GoalP: c.nonErrorReturn}
+		name := FuncName(s.Fn)
+		if p := q.Find(); p != nil {
+			r.Bad(rule, name, "PutSession(uid) ⇒ After(reset event)", posf(c, s.Op.Call), "a login that lock gated completes without firing the After event on which lock resets the failure count: earlier failures keep counting after a successful login", c.P.DescribePath(p)...)
+		} else {
+			r.Ok(rule, name, "PutSession(uid) ⇒ After(reset event)", posf(c, s.Op.Call), "every completing path reports the success to lock")
+		}
+	}
+}
+
+// readStateErrors: a client-state store that cannot be read ends the request
+// with its error. A handler run after a failed read sees an empty session
+// where the client holds one (an anonymous request instead of the logged-in
+// user's), and what it then writes replaces the client's state.
+func (c *Ctx) readStateErrors(rule string) {
+	r := c.R
+	n := 0
+	for _, fn := range c.P.Funcs {
+		if strings.HasSuffix(pkgOf(fn), "/mocks") {
+			continue
+		}
+		for _, call := range CallsTo(fn, "(ab.ClientStateReadWriter).ReadState") {
+			n++
+			k, _ := c.errHandling(call)
+			ok := k == "returned"
+			why := "error is " + k
+			if k == "tested" {
+				ok, why = c.errPropagated(call)
+			}
+			r.Check(ok, rule, FuncName(fn), "ReadState.err", posf(c, call), "handed back to the caller", "the store's read error is not handed back ("+why+"): the request goes on without the state the client holds")
+		}
+	}
+	r.Check(n >= 1, rule, "ab", "ReadState call sites", "-", sprintf("%d", n), "no ReadState call site found")
+}
+
+// routeRequirements: the requirement bits a module hands to the access
+// middleware are the ones its routes need — every route of the second-factor
+// packages whose handler can change the account's second factor (or
+// regenerate its recovery codes) sits behind the middleware with
+// RequireFullAuth among its bits, in every configuration alternative. (The
+// middleware admits a request exactly when the requirements it was GIVEN hold;
+// this is the other half: it is given the right ones.)
+func (c *Ctx) routeRequirements(rule string) {
+	r := c.R
+	full := c.P.ConstInt("", "RequireFullAuth")
+	n := 0
+	for _, rt := range c.Routes() {
+		if !strings.HasPrefix(pkgOf(rt.In), "ab/otp") {
+			continue
+		}
+		for _, alt := range rt.Alts {
+			if alt.Unknown != "" || alt.Inner == nil {
+				continue // reported by C13.route
+			}
+			page := ""
+			if alt.Recv != nil {
+				page, _ = pageOf(alt.Recv)
+			}
+			sens := c.reachSensitive(alt.Inner, page, 0, map[*ssa.Function]bool{})
+			if len(sens) == 0 {
+				continue
+			}
+			n++
+			hasFull := false
+			for _, w := range alt.Wrappers {
+				if w.Kind == "MW2" && w.Reqs >= 0 && w.Reqs&full == full {
+					hasFull = true
+				}
+			}
+			key := rt.Method + " " + rt.Path + "→" + FuncName(alt.Inner)
+			if page != "" {
+				key += "[" + page + "]"
+			}
+			if len(alt.Cond) > 0 {
+				key += "{" + strings.Join(alt.Cond, ",") + "}"
+			}
+			r.Check(hasFull, rule, FuncName(rt.In), key, posf(c, rt.Call), "behind the access middleware with RequireFullAuth", "the route changes the account's second factor but the access middleware in front of it is not given RequireFullAuth ("+alt.String()+"): a half-authenticated (remember-me) session is admitted")
+		}
+	}
+	r.Check(n >= 6, rule, "ab/otp", "second-factor routes", "-", sprintf("%d routes that can change a second factor", n), sprintf("expected at least 6 routes that can change a second factor, found %d", n))
+}
+
+// delAllQueued: the delete-all of logout is an event like any other: it is
+// queued on every path (whatever the whitelist).
+func (c *Ctx) delAllQueued(rule string) {
+	fn := c.P.Func(fnDelAllSession)
+	ok, p := c.mustQueue(fn, nil, 0, map[*ssa.Function]bool{})
+	if ok {
+		c.R.Ok(rule, FuncName(fn), "queues its event on every path", c.P.Pos(fn.Pos()), "no returning path skips the queue")
+	} else {
+		c.R.Bad(rule, FuncName(fn), "queues its event on every path", c.P.Pos(fn.Pos()), "DelAllSession can return without having queued the delete-all (for instance for an empty whitelist, the default): logout then removes only the keys it names one by one", c.P.DescribePath(p)...)
 	}
 }
 
